@@ -8,8 +8,8 @@ from props.c13 import leaf_types
 from props.c03 import typedoc_sexp, TYPEDOCS, gs_sexp
 
 PROP = "C11"
-LEAN_MODULES = ["ShootVerif.Props.C11"]
-USES_FACTS = False
+LEAN_MODULES = ["ShootVerif.Props.C11", "ShootVerif.Props.C11Facts"]
+USES_FACTS = True
 DRIVER = "shootmodel_new"
 MANIFEST = dict(
     text="Lean 4 theorems over a model of -json (makeJson of json.go, shadow struct / MarshalJSON / UnmarshalJSON of constructor.tmpl): for EVERY struct tree, tagcase and set of promoted accessors the generator's JSON list equals the property's key list — one key per visible exported leaf and per unexported leaf with an own (C03 table) or promoted getter/setter, named by explicit tag or tagcase(name) (C11_keys); for every key list with distinct keys and names Unmarshal(Marshal(v)) restores every exported-or-settable field that is exported or has a getter and yields zero otherwise (C11_roundtrip, C11_no_getter_zero); Unmarshal touches nothing else (C11_unmarshal_frame). Tied to the code by generating struct packages (C03 shapes, explicit json tags, 4 tagcases x 5 name forms, embedded shoot types), running the rebuilt `shoot new -json [-getset]`, compiling, and executing encoding/json Marshal on sentinel-filled values and Unmarshal of a crafted document, reading every leaf back. Since the second seeding round: the stack scan of makeNew that fills AllocMap is modelled (Model/AllocMap.lean) and proved to pair every field with exactly the embedded pointer structs on ITS way (C11_alloc_chain, C11_alloc_lookup); execution also marshals values with each embedded pointer nil in turn (mpart), runs multi-type invocations with a companion type processed first, models `,omitempty`, and includes structs that embed a pointer to themselves.",
